@@ -76,8 +76,31 @@ impl Sub for Rewriter {
         (
             rules(8).prop_filter("at least one rule", |r| !r.is_empty()),
             0u8..3,
-            vec(vec(any::<u16>(), 0..=5), 4),
+            // two short and two long feature lists: references up to $12 resolve in the long ones
+            (vec(vec(any::<u16>(), 0..=5), 2), vec(vec(any::<u16>(), 6..=13), 2)).prop_map(|(mut a, b)| {
+                a.extend(b);
+                a
+            }),
+            any::<u8>(),
         )
+            .prop_map(|(mut rules, section, fraw, wide)| {
+                // multi-digit references ($10, $11, $12): a third of the cases each
+                let (six, four) = match wide % 3 {
+                    1 => ("$10", "$12"),
+                    2 => ("$11", "$4"),
+                    _ => ("$6", "$4"),
+                };
+                for r in rules.iter_mut() {
+                    for c in r.rewrite.iter_mut() {
+                        if c == "$6" {
+                            *c = six.to_string();
+                        } else if c == "$4" {
+                            *c = four.to_string();
+                        }
+                    }
+                }
+                (rules, section, fraw)
+            })
             .prop_map(|(rules, section, fraw)| RewriteCase {
                 rules,
                 section,
@@ -89,7 +112,7 @@ impl Sub for Rewriter {
             .boxed()
     }
     fn rule(&self) -> String {
-        "rule lists of 1-8 rules (patterns of 1-4 positions over '*', literals, '(a|b)' alternatives; rewrites of 1-4 cells of literals and $n, n up to 6 so absent references occur), built to share pattern prefixes with earlier \
+        "rule lists of 1-8 rules (patterns of 1-4 positions over '*', literals, '(a|b)' alternatives; rewrites of 1-4 cells of literals and $n with n in 1-4, 6 or the multi-digit 10, 11, 12; feature lists of 0-5 and of 6-13 cells, so both absent and resolved multi-digit references occur), built to share pattern prefixes with earlier \
          rules on purpose and to interleave wildcard and literal first columns, in one of the three sections (decoy rules in the other two) × 4 feature lists of 0-5 cells; oracle: reference scan in file order (first prefix-matching rule wins, \
          $n substitution, None if no rule matches) through the rewrite hook which parses the rendered rewrite.def; non-trivial = ≥2 rules match the feature list; distinct = hash(rules, features)".into()
     }
